@@ -2,6 +2,7 @@ package props
 
 import (
 	"bytes"
+	"crypto/sha256"
 	"encoding/hex"
 	"fmt"
 	"sort"
@@ -152,12 +153,12 @@ func (y *vsSys) Digest(s *vsState) [32]byte {
 
 func (y *vsSys) Letters(s *vsState) []engine.Letter {
 	var ls []engine.Letter
-	for _, o := range vsOps {
+	for _, o := range y.opMenu() {
 		for _, k := range y.keyMenu() {
 			ls = append(ls, engine.Letter{Name: fmt.Sprintf("AddValidator(%s,%s)", o, k), Data: vsAdd{o, k}})
 		}
 	}
-	for _, o := range vsOps {
+	for _, o := range y.opMenu() {
 		ls = append(ls, engine.Letter{Name: fmt.Sprintf("RemoveValidator(%s)", o), Data: vsRemove{o}})
 	}
 	for _, m := range []int{1, 2, 3} {
@@ -193,10 +194,27 @@ func (y *vsSys) Letters(s *vsState) []engine.Letter {
 	return ls
 }
 
-func valOf(name string) string { return sdk.ValAddress(world.Addr(name)).String() }
+func valOf(name string) string {
+	if name == vsLongOp {
+		// an operator whose address is 32 bytes long (a derived / module-style account), legal for the codec
+		h := sha256.Sum256([]byte("operator " + name))
+		return sdk.ValAddress(h[:]).String()
+	}
+	return sdk.ValAddress(world.Addr(name)).String()
+}
+
+// vsLongOp is the third operator on the chain with consensus keys of both types: its address has 32 bytes.
+const vsLongOp = "oL"
+
+func (y *vsSys) opMenu() []string {
+	if y.secp {
+		return []string{"o1", "o2", vsLongOp}
+	}
+	return vsOps
+}
 
 func opName(valAddr string) string {
-	for _, o := range vsOps {
+	for _, o := range append(append([]string{}, vsOps...), vsLongOp) {
 		if valOf(o) == valAddr {
 			return o
 		}
